@@ -48,7 +48,13 @@ def opValidate : Handler := fun j => do
       match ← getArr p with
       | [a, c] => return (← getStr a, ← getStr c)
       | _ => throw "bc entries must be [axis, condition]"
-    let (r, st) := setBoundaryConditions bc
+    let cur ← match fieldOpt j "cur" with
+      | some c => (← getArr c).mapM fun p => do
+        match ← getArr p with
+        | [a, c] => return (← getStr a, ← getStr c)
+        | _ => throw "cur entries must be [axis, condition]"
+      | none => pure Gen.pyBoundaryDefaults
+    let (r, st) := setBoundaryConditions cur bc
     match r with
     | .ok () => return Json.mkObj [("ok", Json.null), ("state", pairsJson st)]
     | .error e => return Json.mkObj [("error", errName e), ("state", pairsJson st)]
